@@ -1370,7 +1370,13 @@ class NinjaBackend(backends.Backend):
             elem.add_item('COMMAND', meson_exe_cmd)
             elem.add_item('description', f'Running external command {target.name}{cmd_type}')
             elem.add_item('pool', 'console')
-        deps = self.get_paths_for_dep_outputs(target, target.get_dependencies())
+        deps = []
+        for dep in target.get_dependencies():
+            if isinstance(dep, build.RunTarget):
+                # run and alias targets of a subproject carry its name as prefix
+                deps.append(self.build_run_target_name(dep))
+            else:
+                deps += self.get_paths_for_dep_outputs(target, [dep])
         deps += self.get_target_depend_files(target)
         elem.add_dep(deps)
         self.add_build(elem)
